@@ -42,12 +42,12 @@ NEEDS = {"cmds": ["cryptodrv"], "specs": ["Sigs", "Keybase"]}
 
 TIERS = {
     "quick": dict(sigs=["MC_Sigs.cfg"], kb="MC_Keybase.cfg", kbsim="MC_KeybaseSim.cfg", kbprog="MC_KeybaseProg.cfg", depth=12, sim_num=400,
-                  budget={"mem": 600, "leveldb": 250, "lazy": 250}, budget_prog={"mem": 420, "leveldb": 420, "lazy": 420},
-                  tlc_timeout=600, workers=5),
+                  budget={"mem": 600, "leveldb": 250, "lazy": 250}, budget_prog={"mem": 320, "leveldb": 320, "lazy": 320},
+                  tlc_timeout=600, workers={"mem": 6, "leveldb": 5, "lazy": 5}),
     "thorough": dict(sigs=["MC_SigsThorough.cfg", "MC_SigsThoroughB.cfg"], kb="MC_KeybaseThorough.cfg", kbsim="MC_KeybaseSimThorough.cfg",
                      kbprog="MC_KeybaseProg.cfg", depth=16, sim_num=2500,
                      budget={"mem": 6000, "leveldb": 2000, "lazy": 2000}, budget_prog={"mem": 9000, "leveldb": 4500, "lazy": 4500},
-                     tlc_timeout=1700, workers=5),
+                     tlc_timeout=1700, workers={"mem": 6, "leveldb": 5, "lazy": 5}),
 }
 BACKENDS = ("mem", "leveldb", "lazy")
 # Keybase.tla: NK = 3, NKnown = 2, Secp = {2} in every configuration
@@ -501,7 +501,10 @@ def _compare_behaviours(backend, behs, resp, find, notes, job):
             for name, ok in sorted((r.get("checks") or {}).items()):
                 if not ok:
                     viol("keybase-" + name.replace("_", "-") + "-false", op, "check '%s' is false on the real keybase" % name, i, {"real": r})
-                    diverged = True
+                    # what an exported armor holds / opens under concerns the client's copy only: the keybase is still
+                    # in step with the model, the behaviour goes on (a later import of that armor is judged on its own)
+                    if not name.startswith("export_"):
+                        diverged = True
             nconf += 1
             if diverged:
                 break
@@ -597,7 +600,7 @@ def _run_keybase(d, tier, seed, out, find, notes):
         passes_by = _passes(seed, len(behs))
         jobs[backend] = dict(behs=behs, covered=covered, spent=spent, pspent=pspent, nsim=nsim, passes_by=passes_by,
                              job={"seed": seed, "backend": backend, "passes": passes_by[0] if passes_by else {}, "passes_by": passes_by,
-                                  "nknown": NKNOWN, "nk": NK, "secp": SECP, "probe": True, "workers": cfg["workers"], "behaviours": behs})
+                                  "nknown": NKNOWN, "nk": NK, "secp": SECP, "probe": True, "workers": cfg["workers"][backend], "behaviours": behs})
 
     # the three keybases are driven at the same time (scrypt is what costs)
     def drive(j):
